@@ -9,7 +9,8 @@ COQ_IMPORTS = ['Base.Str', 'Base.Value', 'Frame.Events']
 RULE = ('cases = stream lengths 10^1..10^3 (quick; 10^4, 10^5 thorough) x pipelines of 1-6 non-buffering steps (user row/rows '
         'functions with code around the yield, filter, add_field, set_type, expanding step, printer, dump_to_path, stream, '
         'first-run checkpoint); the real order of source pulls and deliveries is recorded; non-trivial = n larger than '
-        'the inference sample; distinct = (n, pipeline)')
+        'the inference sample; distinct = (n, pipeline)'
+        '; round 4: dump steps in every file format (csv, json, excel, xlsx)')
 TRUSTED = ['Coq 8.16.1 kernel + vm_compute', 'harness/tracelib.py probes (counting source, logging steps, terminal consumer) and Gallina printer',
            'Python generator laziness itself is modelled (function composition on event lists), validated by the trace correspondence',
            'memory use is represented only by the number of rows read ahead']
@@ -30,8 +31,13 @@ def gen_cases(rng, tier):
                 st = {'t': t}
                 if t == 'filter':
                     st['mod'] = rng.pick([2, 3, 5])
+                if t == 'dump':
+                    # every file format writes row by row (or in fixed batches)
+                    st['format'] = rng.pick(['csv', 'json', 'excel', 'xlsx'] if n <= 1000 else ['csv', 'json'])
                 steps.append(st)
             cases.append({'kind': 'lookahead', 'n': n, 'steps': steps, 'sparse': rng.pick([None, None, 'leading', 'always'])})
+    for fmt in ('csv', 'json', 'excel'):
+        cases.append({'kind': 'lookahead', 'n': 600, 'steps': [{'t': 'dump', 'format': fmt}], 'sparse': None})
     # load(limit_rows=K): once K rows are delivered nothing more may be pulled from the source
     for n in ([40, 5000] if tier != 'thorough' else [40, 5000, 100000]):
         for k in (1, 10):
